@@ -56,10 +56,14 @@ def slots_for(principal):
 
 class DavSession:
     def __init__(self, frontend="wsgi", prefix="/", backend="tree", index_threshold=None,
-                 audit_git=True, max_sync_tokens=4, principal="/user/"):
-        self.cfg = {"frontend": frontend, "prefix": prefix, "backend": backend, "principal": principal}
+                 audit_git=True, max_sync_tokens=4, principal="/user/", strict=True, paranoid=False):
+        # strict: --no-strict deployments tolerate sloppy requests; paranoid: index answers are
+        # double-checked against the naive evaluation.  Every property holds in all of them.
+        self.cfg = {"frontend": frontend, "prefix": prefix, "backend": backend, "principal": principal,
+                    "strict": bool(strict), "paranoid": bool(paranoid)}
         self.slots, self.homes = slots_for(principal)
-        self.world = World(frontend=frontend, prefix=prefix, index_threshold=index_threshold, principal=principal)
+        self.world = World(frontend=frontend, prefix=prefix, index_threshold=index_threshold, principal=principal,
+                           strict=strict, paranoid=paranoid)
         self.backend = backend
         self.audit_git = audit_git
         self.max_sync_tokens = max_sync_tokens
@@ -195,7 +199,7 @@ class DavSession:
         try:
             p = subprocess.run([sys.executable, "-m", "harness.extworker", f.name], stdout=subprocess.PIPE,
                                stderr=subprocess.DEVNULL, timeout=120,
-                               env=dict(os.environ, PYTHONPATH="/verif:/repo"))
+                               env=dict(os.environ, PYTHONPATH=os.environ.get("PYTHONPATH", "/verif:/repo")))
             out = _json.loads(p.stdout.decode() or "[]")
         finally:
             os.unlink(f.name)
